@@ -49,6 +49,14 @@ request, the next DoWhile iteration, a complete load - runs one whole store): no
 descriptions and the directory must reload as that experiment.  Every opening of a directory is also compared with
 coq/Reload/Dir.v open_experiment ([parsed as package, update, description existed] -> was the file written).
 
+Also generated (seventh round): LONG loops (long_loop_ks: k = 9..12 systematically, some beyond, thorough up to 101).  A running
+experiment instantiates iteration after iteration on ONE WorkflowGraph whose state (placeholders, documents, merged graphs) is
+kept between the calls, an experiment loaded from the directory builds its graph from the stored description at once; iteration
+numbers with more digits than the ones before them (10 after 9) are where an order on the text of an instance name parts from
+the numeric one.  Compared in addition: `producers` (which instance feeds every reference, through the placeholders), every
+placeholder against what k further iterations must give (predicate_loop_latest: independent of the reload) and against
+coq/Reload/Loops.v check_loop (the live side as k steps on one state, the reloaded side as one load of the stored instances).
+
 The configuration generator builds on harness/c04.py (same layer slots / clash patterns: an option or a variable
 defined independently on default/platform/foreign-platform global+stage blueprints, component, per-platform overrides,
 two user variable files) but draws schema-valid values, because a package must pass validation to be instantiated."""
@@ -61,7 +69,7 @@ import os
 import c04
 import c05
 import c07_impl
-from common import cstr, clist, cjv, copt, cbool, NPROC
+from common import cstr, clist, cjv, copt, cbool, cnat, NPROC
 
 PROP = 'C07'
 COQ_DIR = 'Reload'
@@ -76,7 +84,10 @@ ASSUMPTIONS = [
     '(no stage/override/$import in blueprints and platform override; a repeatInterval there is allowed since F7d was repaired)',
     'direct references into manifest (:link / :copy) top-level folders: the model stores references verbatim; that they are '
     'still read as references to folders after the reload is checked on the implementation only (references, edges, reload)',
-    'DoWhile instances (loop iterations before the reload) are covered by the predicate on the implementation only',
+    'DoWhile instances (loop iterations before the reload): the node set / configuration / references of the instances are covered '
+    'by the predicate on the implementation only; the loop placeholders over time (which instances a placeholder stands for and which '
+    'one is the latest, live graph after k iterations vs graph built from the stored description) are modelled (coq/Reload/Loops.v, '
+    'C07_loops_*) and compared with the implementation for every placeholder of every loop case',
     'stores after the experiment was built (on request, after a loop iteration, by a reloaded experiment): the model has no notion '
     'of time - flatten is a function of the package - so the description compared with the model is the LAST one the live '
     'experiment stored before the reload, and that later stores leave the description alone is checked on the implementation',
@@ -92,6 +103,7 @@ ASSUMPTIONS = [
 HEADER = 'Require Import V.Lib.JTree V.Conf.Model V.Reload.Model.\nOpen Scope string_scope.'
 CHECKER = 'check_case'
 HEADER_DIR = 'Require Import V.Reload.Dir.'
+HEADER_LOOPS = 'Require Import V.Reload.Loops.\nOpen Scope string_scope.'
 CORPUS = os.path.join(os.path.dirname(os.path.abspath(__file__)), 'corpus', 'c07')
 
 put, get, leaves, layer_slot, prune = c04.put, c04.get, c04.leaves, c04.layer_slot, c04.prune
@@ -449,6 +461,7 @@ SNAP_KEYS = [('nodes', 'set of components'), ('edges', 'dataflow edges'), ('conf
              ('raw', 'unresolved configuration of a component'), ('refs', 'data references of a component'),
              ('env', 'environment of a component'), ('loops', 'state of a DoWhile loop'),
              ('placeholders', 'loop placeholders'),
+             ('producers', 'components that produce the data of a reference (through the loop placeholders)'),
              ('folders', 'set of manifest folders known as top-level folders of the experiment')]
 
 
@@ -494,9 +507,14 @@ def predicate(ctx, case, obs):
                         classes = ['live_graph_keeps_edges_of_earlier_loop_iterations']
                         rep2['extra_live_edges'] = sorted(L - R)
                 ctx.fail(rep2, 'after the %s reload the %s differs from the experiment that wrote the instance' % (which, what), classes)
-                break
+                if not classes:
+                    break
+                # (a difference that belongs to an open finding must not hide the sections compared after it: the loop state,
+                #  the placeholders and the producers of a live graph with F7c edges are still compared)
     if len(obs['reloads']) < 2:
         ctx.fail(rep, 'second reload missing', [])
+    if case['kind'] == 'loop':
+        predicate_loop_latest(ctx, case, obs)
     if case.get('folders') and live.get('folders') != sorted(case['folders']):
         ctx.fail(dict(rep, known=live.get('folders')),
                  'a top-level folder that the manifest of the package declares is not known to the experiment', [])
@@ -535,6 +553,58 @@ def predicate(ctx, case, obs):
                          'the environment of a component of the instance is not the package\'s environment for the '
                          'selected platform (default keys overlaid by the platform\'s)', [])
                 break
+
+
+def expected_placeholder(p, k):
+    """what a placeholder stageS.name of a loop with k further iterations stands for: the instances 0..k of the component,
+    the latest one being iteration k (numerically)"""
+    st, name = p.split('.', 1)
+    return {'latest': '%s.%d#%s' % (st, k, name), 'represents': sorted('%s.%d#%s' % (st, i, name) for i in range(k + 1))}
+
+
+def predicate_loop_latest(ctx, case, obs):
+    """'every loop iteration instantiated so far': independently of the comparison live / reloaded, every placeholder of the
+    experiment that wrote the instance and of both reloaded ones stands for the instances 0..k of its component and its latest
+    instance is the one of iteration k; every looped component of the package has a placeholder; a consumer outside the loop
+    that reads a looped component (not :loopref) is fed by the instance of iteration k"""
+    k = case['k']
+    rep = {'case': case}
+    c5 = case['c05']
+    want_ids = set('stage%d.%s' % (c5['S'] + c.get('stage', 0), c['name']) for c in c5['comps'])
+    sides = [('the experiment that wrote the instance', obs['live'])]
+    sides += [('the experiment after the %s reload' % w, r) for w, r in zip(('first', 'second'), obs['reloads']) if 'error' not in r]
+    for who, snap in sides:
+        ph = snap.get('placeholders') or {}
+        if 'error' in ph and not isinstance(ph.get('error'), dict):
+            ctx.fail(dict(rep, placeholders=ph), 'the loop placeholders of %s cannot be read' % who, [])
+            return
+        missing = sorted(want_ids - set(ph))
+        if missing:
+            ctx.fail(dict(rep, missing=missing, side=who), 'a looped component has no placeholder in %s after %d further '
+                     'iterations' % (who, k), [])
+            return
+        for p in sorted(ph):
+            want = expected_placeholder(p, k)
+            if ph[p] != want:
+                ctx.fail(dict(rep, placeholder=p, expected=want, got=ph[p], side=who),
+                         'after %d further iterations a loop placeholder of %s does not stand for the instances 0..%d of its component '
+                         'with the one of iteration %d as the latest (numerically highest) one' % (k, who, k, k), [])
+                return
+        for n, prod in sorted((snap.get('producers') or {}).items()):
+            if prod[0] != 'ok':
+                ctx.fail(dict(rep, node=n, error=prod, side=who), 'the producers of the references of a component of %s cannot be '
+                         'computed (%s)' % (who, prod[1]), [])
+                return
+            for ref, ids in prod[1]:
+                pid = ref.split(':', 1)[0].split('/', 1)[0]
+                if pid in ph and ids is not None:
+                    want = expected_placeholder(pid, k)
+                    ok = ids == (want['represents'] if ref.endswith(':loopref') else [want['latest']])
+                    if not ok and not ref.endswith(':loopoutput'):
+                        ctx.fail(dict(rep, node=n, reference=ref, producers=ids, side=who),
+                                 'after %d further iterations a reference to a looped component is not fed by the instance of the latest '
+                                 'iteration (all instances for :loopref) in %s' % (k, who), [])
+                        return
 
 
 def same_experiment(case, a, b, edges=True):
@@ -791,6 +861,23 @@ def explore(ctx, cases, parallel=True):
                      'and did not store its own description (parsed as a %s)' % ('package' if o[0] else 'instance'), [])
         ctx.disagree({'case': case}, {'opening': o}, None, 'C07 opening a directory (Experiment.__init__ / _generate_instance_files) '
                                                           'vs Reload.Dir.open_experiment: [package, update, existed, written]')
+    # the loop placeholders over time (Loops.v): k next_iteration steps on one live state / load of the stored instances
+    lterms, lowners = [], []
+    for case, obs in zip(cases, observations):
+        if case['kind'] != 'loop' or 'live' not in obs or 'error' in (obs['live'].get('placeholders') or {}):
+            continue
+        view = lambda v: '(%s, %s)' % (cstr(v.get('latest', '')), clist(v.get('represents', []), cstr))
+        for p, v in sorted(obs['live']['placeholders'].items()):
+            st, name = p.split('.', 1)
+            rl = [(r.get('placeholders') or {}).get(p) or {} for r in obs['reloads'] if 'error' not in r]
+            lterms.append('((%s%%N, %s, %s), %s, %s)' % (int(st[5:]), cstr(name), cnat(case['k']), view(v), clist(rl, view)))
+            lowners.append((case, p, v, rl))
+    ctx.count('model_cases_loop_placeholders', len(lterms))
+    for i in ctx.model_mismatches(HEADER_LOOPS, lterms, 'check_loop', chunk=400, name='c07loops'):
+        case, p, v, rl = lowners[i]
+        ctx.disagree({'case': case}, {'placeholder': p, 'live': v, 'reloaded': rl}, None,
+                     'C07 loop placeholders (live: instantiate_dowhile_next_iteration x k on one graph; reloaded: built from the stored '
+                     'description) vs Reload.Loops.after / load')
     bad = ctx.model_mismatches(HEADER, terms, CHECKER, chunk=10, name='c07')
     for k, i in enumerate(bad):
         case, obs = owners[i]
@@ -825,6 +912,14 @@ def gen_loop_case(rng, k):
         return draw_directory_history(rng, draw_later_stores(rng, case))
 
 
+def long_loop_ks(rng, tier):
+    """numbers of further iterations around and beyond the digit boundaries: 9/10/11 systematically, a few drawn in 12..30,
+    thorough: more of each and 99/100/101"""
+    if tier == 'quick':
+        return [9, 10, 10, 11, 12] + [rng.randrange(13, 31) for _ in range(2)]
+    return [9, 10, 11, 12] * 5 + [rng.randrange(13, 60) for _ in range(12)] + [99, 100, 101]
+
+
 def run(ctx):
     ctx.rule = ('packages with platforms default/p/q, stages 0-1, three components (producer, replicating or plain '
                 'consumer, aggregating consumer), 14 schema-valid options x 11 layers and 8 variables x 15 layers (C04 '
@@ -835,7 +930,9 @@ def run(ctx):
                 'as one FlowIR file + manifest with :link / :copy top-level folders and direct references into them (40% of those next to a '
                 'component named like a folder), 6% with a repeatInterval in a blueprint / override layer; plus DoWhile packages of the C05 '
                 'generator with k = 0..3 (quick) further iterations stored before the reload, 70% of them with replicated + aggregating '
-                'components added outside the loop (xrep x2/x3, xagg) and / or inside the DoWhile document (zrep x1/x2, zagg); every case: '
+                'components added outside the loop (xrep x2/x3, xagg) and / or inside the DoWhile document (zrep x1/x2, zagg), plus LONG loops '
+                '(k = 9, 10, 10, 11, 12 and two drawn in 13..30; thorough 5 x each of 9..12, twelve in 13..59 and 99, 100, 101: iteration '
+                'numbers with more digits than the earlier ones, all instantiated one after the other on ONE live graph); every case: '
                 'create the instance, 0/1/2 (weights 2:2:1) explicit stores on request by the built experiment, reload twice, in 35% of '
                 'the cases every reloaded experiment stores on request as well before the directory is read again; the history of the directory: '
                 'reloads with update / without (20%) / is_instance=None (20%); 15% of the directory packages carry a conf/flowir_instance.yaml '
@@ -860,6 +957,11 @@ def run(ctx):
     for k in ks:
         for _ in range(per_k):
             cases.append(gen_loop_case(rng, k))
+    # LONG loops (round 7): iteration numbers with more digits than the ones before them.  The live graph keeps state from
+    # iteration to iteration (placeholders, documents, merged graphs) while a reloaded one is built from the stored description
+    # at once; '9#x' / '10#x' (and '99#x' / '100#x') is where an order on the TEXT of an instance name parts from the numeric one
+    for k in long_loop_ks(rng, ctx.tier):
+        cases.append(gen_loop_case(rng, k))
     explore(ctx, cases)
     ctx.count('cases', len(cases))
 
